@@ -120,7 +120,7 @@ def run(tier, seed, ev):
     import concurrent.futures as cf
     with cf.ThreadPoolExecutor(max_workers=2) as ex:
         # the ownership model: refs == owners, nothing live after Free, with one allocation failure anywhere
-        mc = ex.submit(V.tlc_must_pass, "MC_Reader", "MC_Reader_c20" if tier == "quick" else "MC_Reader_c20_t", workers=8, xmx="12g", timeout=2400)
+        mc = ex.submit(V.tlc_must_pass, "MC_Reader", "MC_Reader_c20" if tier == "quick" else "MC_Reader_c20_t", workers=8, xmx="12g", timeout=2400 if tier == "quick" else 9000)
         drv = V.build_driver("reader_drv", "san", wrap=True)
         hs = histories(rng, sc, 40 if tier == "quick" else 400, 2 if tier == "quick" else 6)
         hs += failing_extractions(rng, sc)
